@@ -7,15 +7,19 @@ EXPLANATION = (
     "On the path-sensitive REGION super-graph of in_toto_verify, stages are located by what they contain (file "
     "read, per-link signature check, recursive verification, materials/products comparison, ArtifactRule dispatch, "
     "inspection run). D1: the inspection run is edge-dominated by the signature gate's Ok outcome, the expiry pass "
-    "edge and the exhaustion edge of every step-stage loop (loading, thresholds, sub-layouts, agreement, step rules). "
+    "edge and the exhaustion edge of every step-stage loop (loading, thresholds, sub-layouts, agreement, step rules); and a "
+    "failed step rule cannot be carried past it: once the return value of a function enclosing the rule dispatch is known to be "
+    "Err inside the step-rule stage, no inspection run is reachable on a feasible path. "
     "D2: every process spawn / file write of the region, and every non-inlined local callee that can reach one, lies "
     "behind the step-rule stage (the recursive call is covered inductively). D4: between an inspection's run and the "
     "filing of its link there is a test of the command's return value whose non-zero side cannot reach the filing, and "
-    "which cannot be bypassed when a return value is present. D5: the inspections' artifact rules are applied to the "
+    "which cannot be bypassed when a return value is present; the link without a return value that this lets through is "
+    "sound because of the producer side: in every function that spawns the process, each path from the spawn to a "
+    "non-error return records the Some payload of ExitStatus::code() as the return value. D5: the inspections' artifact rules are applied to the "
     "map holding the inspection links and their Ok outcome dominates the summary.")
 DECIDED = ["D1 stage ordering before the inspection run", "D2 no effects before the inspection stage", "D6 an inspection records materials and products of the same fixed path list and runs its own `run` command",
            "D4 non-zero exit status is fatal", "D5 inspection rules applied and fatal"]
-UNDECIDED = ["commands killed by signals / not found (runtime behaviour of run_command, whose Err is propagated)"]
+UNDECIDED = ["commands not found / the operating system's process semantics (runtime behaviour of run_command, whose Err is propagated)"]
 TRUSTED = ["std::process / std::fs are the only effect channels used by the library"]
 ASSUMPTIONS = []
 FLOORS = {"C08/D1": 7, "C08/D2": 3, "C08/D4": 2, "C08/D5": 2, "C08/D6": 2}
